@@ -246,8 +246,8 @@ func famIntFloat(e *env, r *rand.Rand) {
 			e.wantInt("math.floor", "non-finite", e.callMath("floor", F), nil, mustFail, func() string { return fmt.Sprintf("math.floor(%s)", fstr(f)) })
 			e.wantInt("math.ceil", "non-finite", e.callMath("ceil", F), nil, mustFail, func() string { return fmt.Sprintf("math.ceil(%s)", fstr(f)) })
 		}
-		e.wantInt("math.floor", "int", e.callMath("floor", X), x, mayFail, func() string { return fmt.Sprintf("math.floor(%s)", x) })
-		e.wantInt("math.ceil", "int", e.callMath("ceil", X), x, mayFail, func() string { return fmt.Sprintf("math.ceil(%s)", x) })
+		e.wantInt("math.floor", "int", e.callMath("floor", X), x, mustSucceed, func() string { return fmt.Sprintf("math.floor(%s)", x) })
+		e.wantInt("math.ceil", "int", e.callMath("ceil", X), x, mustSucceed, func() string { return fmt.Sprintf("math.ceil(%s)", x) })
 		{
 			// math.round(int): exact value is x itself; a float result must be exactly x, else it must fail.
 			o := e.callMath("round", X)
